@@ -402,7 +402,7 @@ def run(rep):
 
     ex = exhaustive_cases()
     fx = fixed_cases()
-    nrand = 200 if rep.tier == "quick" else 2000
+    nrand = 200 if rep.tier == "quick" else 8000
     rnd = [random_case(rng, n) for n in range(nrand)]
     vc = valid_cases(rng, 100 if rep.tier == "quick" else 1000)
     cases = fx + ex + rnd + vc
